@@ -5,7 +5,12 @@ import (
 	"reflect"
 	"strings"
 
+	"github.com/go-i2p/common/certificate"
+	"github.com/go-i2p/common/data"
 	"github.com/go-i2p/common/destination"
+	"github.com/go-i2p/common/lease_set"
+	"github.com/go-i2p/common/lease_set2"
+	"github.com/go-i2p/common/meta_leaseset"
 	"github.com/go-i2p/common/keys_and_cert"
 	"github.com/go-i2p/common/router_address"
 	"github.com/go-i2p/common/router_identity"
@@ -179,6 +184,15 @@ var coldReaders = map[string]func(in []byte) (any, error){
 		r, _, err := router_identity.NewRouterIdentityFromBytes(in)
 		return r, err
 	},
+	"ReadMapping": func(in []byte) (any, error) {
+		m, _, errs := data.ReadMapping(in)
+		return &m, data.WrapErrors(errs)
+	},
+	"NewMapping":        func(in []byte) (any, error) { m, _, errs := data.NewMapping(in); if m == nil { return nil, data.WrapErrors(errs) }; return m, data.WrapErrors(errs) },
+	"ReadLeaseSet2":     func(in []byte) (any, error) { l, _, err := lease_set2.ReadLeaseSet2(in); return &l, err },
+	"ReadMetaLeaseSet":  func(in []byte) (any, error) { l, _, err := meta_leaseset.ReadMetaLeaseSet(in); return &l, err },
+	"ReadLeaseSet":      func(in []byte) (any, error) { l, err := lease_set.ReadLeaseSet(in); return &l, err },
+	"ReadCertificate":   func(in []byte) (any, error) { c, _, err := certificate.ReadCertificate(in); return c, err },
 	"ReadRouterInfo":    func(in []byte) (any, error) { r, _, err := router_info.ReadRouterInfo(in); return &r, err },
 	"ReadRouterAddress": func(in []byte) (any, error) { r, _, err := router_address.ReadRouterAddress(in); return &r, err },
 }
